@@ -78,6 +78,7 @@ def check(run):
     drv = vlib.ocaml_build()
     codec = vlib.harness_build("harness", ["codec"])["codec"]
     cases, expect = [], []
+    vm_pool = []
     sizes = {}
     # corpus first: the captured packets that are canonical must survive decode -> encode
     for name, b in cc.corpus(L):
@@ -89,6 +90,8 @@ def check(run):
     for s in L["structs"]:
         for k in range(per_type):
             v, b = layouts.gen_struct_value(rng, s, big=(k % 25 == 0))
+            if len(b) < 400:
+                vm_pool.append((s["name"], list(b), v))
             cases.append("dec\t%s\t%s" % (s["name"], layouts.hexs(b)))
             expect.append("Ok %s rem=- re=%s" % (layouts.show(v), layouts.hexs(b)))
             sizes[len(b) // 64] = sizes.get(len(b) // 64, 0) + 1
@@ -100,6 +103,7 @@ def check(run):
                     cases.append("dec\t%s\t%s" % (s["name"], b.hex()))
                     expect.append("Ok %s rem=- re=%s" % (layouts.show(v), b.hex()))
                     boundary += 1
+    triples = []
     mo = vlib.run_sharded(drv, cases, run.workdir, "c01_model")
     io = vlib.run_sharded(codec, cases, run.workdir, "c01_impl")
     diffs = []
@@ -115,6 +119,10 @@ def check(run):
                           detail="decode(encode v) must be (v, no bytes left) and re-encode to the same bytes: " + what)
         else:
             run.nontrivial.add(hash(c))
+    # the extracted model against Coq's own evaluator on a sample of these cases (trusted base: extraction + driver)
+    from .. import vmcheck
+    pick = rng.sample(range(len(vm_pool)), min(len(vm_pool), 1500 if th else 240))
+    vmcheck.crosscheck(run, [vm_pool[k] for k in pick])
     # how many of the generated canonical values lie inside the class the round-trip theorem is proved for
     # (Properties/C01.v: C01_roundtrip_commands / _containers); the others are covered by model = implementation
     # plus the oracle only
